@@ -4,11 +4,20 @@ LEVEL = "model_checking"
 GRIDSET = ("grid_mask.0:7", "grid_mask.1:7")
 
 
+# MEASURED: init_from_image (harness C07/fromimage.c) gives no verdict - the witness twin of even a 6x2 bitmap times out after 900 s
+# (rectangle pointer advanced under symbolic conditions, realloc'ing list); not registered.
+FROMIMG = [] and [("6x2", {"IW": 6, "IH": 2, "RBITS": 32}, 34), ("34x1-w0ones", {"IW": 34, "IH": 1, "RBITS": 32, "W0": "0xffffffffu"}, 34),
+           ("34x1", {"IW": 34, "IH": 1, "RBITS": 32}, 34)]
+
+
 def instances(tier):
     L = []
 
     def I(name, d, unwind=5, **k):
         L.append(Inst(name, "C07/queries.c", d, link=[], unwind=unwind, **k))
+    for nm, d, uw in FROMIMG:
+        L.append(Inst("init_from_image-" + nm, "C07/fromimage.c", d, link=[], unwind=uw, timeout=900, checks=["--bounds-check", "--pointer-check"],
+                      desc={"what": "init_from_image on a symbolic a1 bitmap: region == set bits point-wise, canonical"}))
     for bits in (32, 16):
         ns = (3, 2, 1, 0) if tier == "thorough" else (3, 1)
         for na in ns:
